@@ -1,4 +1,4 @@
-Require Import LdkV.Prim.U64 LdkV.Gen.Consts LdkV.Gen.CltvChecks LdkV.Model.CltvHand LdkV.Model.Timeline.
+Require Import LdkV.Prim.U64 LdkV.Gen.Consts LdkV.Gen.CltvChecks LdkV.Gen.CltvCallSites LdkV.Model.CltvHand LdkV.Model.Timeline.
 Open Scope Z_scope.
 
 Ltac pow2s :=
@@ -194,3 +194,30 @@ Lemma hand_eq_gen :
   (forall h c, h_confirmation_threshold h (Some c) = confirmation_threshold h OnchainEventKind_SpendConfirmation 0 (Some c)) /\
   (forall h, h_confirmation_threshold h None = confirmation_threshold h OnchainEventKind_Other 0 None).
 Proof. repeat split; intros; reflexivity. Qed.
+
+(** Every non-test call site of [check_incoming_htlc_cltv] passes at least MIN_CLTV_EXPIRY_DELTA as the
+    minimum delta, so whatever [ChannelConfig::cltv_expiry_delta] a node is configured with, a forward
+    it accepts leaves it the whole race budget. *)
+Lemma call_sites_enforce_min_delta :
+  Forall (fun d => d >= MIN_CLTV_EXPIRY_DELTA) forward_cltv_min_delta_sites.
+Proof.
+  unfold forward_cltv_min_delta_sites.
+  repeat (apply Forall_cons; [cbv beta; repeat autounfold with c08_sites; consts; lia|]).
+  apply Forall_nil.
+Qed.
+
+Lemma accepted_at_call_site_has_budget h out inn d :
+  In d forward_cltv_min_delta_sites ->
+  check_incoming_htlc_cltv h out inn d = ROk tt ->
+  inn - out >= MIN_CLTV_EXPIRY_DELTA.
+Proof.
+  intros Hin H. apply fwd_ok_iff in H.
+  pose proof (proj1 (Forall_forall _ _) call_sites_enforce_min_delta d Hin) as Hd. cbv beta in Hd. lia.
+Qed.
+
+(** Restart path (ChannelMonitor::get_onchain_failed_outbound_htlcs): a funding spend still in
+    [onchain_events_awaiting_threshold_conf] counts as confirmed only once buried. *)
+Lemma reload_burial event_height best :
+  reload_funding_spend_buried event_height best = true <->
+  best >= confirmation_threshold event_height OnchainEventKind_Other 0 None.
+Proof. unfold reload_funding_spend_buried, confirmation_threshold. lia. Qed.
